@@ -10,8 +10,8 @@ wsgi serve <app> <req>                       one request on fresh slots (C03)
 wsgi hist  <app> <n> <hreq>*n                a whole history on one application (C09)
 wsgi setstatus <i n | s hex>                 the status setter alone
 
-app     := <nb> hook*  <na> hook*  <ne> (<code> errh)*
-hook    := effs (ok | rr out | ex)
+app     := <catchall> <nb> hook*  <na> hook*  <ne> (<code> errh)*
+hook    := effs edit (ok | rr out | ex)          edit := n | rs | an | ro <j>
 effs    := <n> eff*
 eff     := st <code> | sl <hex> | sh <k> <v> | ah <k> <v> | bh <k> | ck <k> <v>
 out     := f <kind> | t <hex> | b <hex> | r <0|1> rstate out | fl <id> <hc> <hi> <hex>
@@ -22,7 +22,9 @@ errh    := c out | bd | ex
 req     := <id> <head> <fw> <pathok> <hexpath> <hexurlrepr> <json> route
 route   := h handler | nf | na <hexallow>
 handler := effs (ret out | rr out | ex)
-hreq    := req <bodyerr>                     bodyerr := - | RequestError | BodySizeError | BodyParsingError
+hreq    := req <bodyerr> <singleton> <ext>   singleton := - | <k>   (the outcome object is the application's module-level object k)
+                         bodyerr := - | RequestError | BodySizeError | BodyParsingError, `+` appended when raised under `except ValueError`
+                                             ext := - | <n> (<k> <v>)*   (probing handler)
 ```
 -/
 namespace Drv.Wsgi
@@ -146,12 +148,21 @@ partial def pItem : P Item := do
   | _ => failure
 end
 
+def pEdit : P HookEdit := do
+  match (← tok) with
+  | "n" => pure .none
+  | "rs" => pure .removeSelf
+  | "an" => pure .addNew
+  | "ro" => do pure (.removeOther (← pNat))
+  | _ => failure
+
 def pHook : P Hook := do
   let effs ← pList pEff
+  let edit ← pEdit
   match (← tok) with
-  | "ok" => pure { effs := effs, res := .ok }
-  | "rr" => do pure { effs := effs, res := .raisesResp (← pOut) }
-  | "ex" => pure { effs := effs, res := .raises }
+  | "ok" => pure { effs := effs, res := .ok, edit := edit }
+  | "rr" => do pure { effs := effs, res := .raisesResp (← pOut), edit := edit }
+  | "ex" => pure { effs := effs, res := .raises, edit := edit }
   | _ => failure
 
 def pErrH : P ErrHandler := do
@@ -161,14 +172,15 @@ def pErrH : P ErrHandler := do
   | "ex" => pure .raises
   | _ => failure
 
-def pApp : P App := do
+def pApp : P (Bool × App) := do
+  let ca ← pBool
   let b ← pList pHook
   let a ← pList pHook
   let e ← pList (do
     let c ← pNat
     let h ← pErrH
     pure (c, h))
-  pure { before := b, after := a, errHandlers := e }
+  pure (ca, { before := b, after := a, errHandlers := e })
 
 def pHandler : P Handler := do
   let effs ← pList pEff
@@ -251,7 +263,18 @@ open Ombott.History in
 def pHReq : P HReq := do
   let r ← pReq
   let be ← tok
-  pure { req := r, bodyErr := if be == "-" then none else some be }
+  let sg ← tok
+  let ex ← tok
+  let ext ← (if ex == "-" then pure none else do
+    let n ← (match ex.toNat? with | some n => pure n | none => failure)
+    let kv ← pMany (do
+      let k ← pStr
+      let v ← pStr
+      pure (k, v)) n
+    pure (some kv))
+  let keeps := be.endsWith "+"
+  let cls := if keeps then (be.dropEnd 1).toString else be
+  pure { req := r, bodyErr := if be == "-" then none else some cls, ctxKeeps := keeps, singleton := sg.toNat?, ext := ext }
 
 def run {α} (p : P α) (toks : List String) : Option α :=
   match p.run toks with
@@ -261,14 +284,17 @@ def run {α} (p : P α) (toks : List String) : Option α :=
 open Ombott.History in
 def handle : List String → Option String
   | "serve" :: rest => do
-    let (app, req) ← run (do
+    let ((ca, app), req) ← run (do
       let a ← pApp
       let r ← pReq
       pure (a, r)) rest
-    let res := wsgi app Slots.fresh req
-    pure (showResult (res.events ++ serverEvents res) res)
+    let res := wsgiC ca app Slots.fresh req
+    let (hb, ha) := hooksAfter app req
+    let hooks := s!" hooks={showNatList hb}/{showNatList ha}"
+    pure (if res.escaped then s!"ev={showEvents (res.events ++ serverEvents res)} escaped" ++ hooks
+          else showResult (res.events ++ serverEvents res) res ++ hooks)
   | "hist" :: rest => do
-    let (app, reqs) ← run (do
+    let ((_, app), reqs) ← run (do
       let a ← pApp
       let rs ← pList pHReq
       pure (a, rs)) rest
